@@ -322,6 +322,16 @@ def main():
             n = 50 if tier == "quick" else 2000
             h = run_harness(pid, "crosscheck", n, repo, seed)
             cross = _parse_json_tail(h)
+            for kf in (cross or {}).get("known_findings", []) if isinstance(cross, dict) else []:
+                if (pid, kf) in known_ids and kf not in known_printed:
+                    what = next(k["what"] for k in known["findings"] if k["property"] == pid and k["obligation"] == kf)
+                    lines.append(f"KNOWN-FINDING: property={pid} {kf}: {what}")
+                    known_printed.append(kf)
+                elif (pid, kf) not in known_ids:
+                    violations += 1
+                    lines.append(f"VIOLATION property={pid} replay=" + os.path.join(HERE, "replay", pid, "runtime_contract_check.json"))
+                    lines.append(f"  run-time check reported finding {kf}, which known_findings.json does not list")
+                    json.dump({"property": pid, "obligation": kf, "harness": h, "result": cross}, open(os.path.join(HERE, "replay", pid, "runtime_contract_check.json"), "w"), indent=1)
             if h and h["rc"] == 1:
                 # the run-time evaluation of the contracts on the real code found a failing input (bounded, native)
                 rp = os.path.join(HERE, "replay", pid, "runtime_contract_check.json")
